@@ -164,13 +164,28 @@ func runC12(c *Ctx) {
 			rb, ok2 := sig.Results().At(0).Type().Underlying().(*types.Basic)
 			return ok1 && ok2 && pb.Kind() == types.Uint16 && rb.Kind() == types.Bool
 		}
-		for _, an := range onResp.AnonFuncs {
+		// … of the matcher or of a package function it builds them in (a constructor returning model value and predicate)
+		type hosted struct {
+			an   *ssa.Function
+			host *ssa.Function
+		}
+		var lits []hosted
+		for _, host := range c.familyOf(onResp) {
+			if host.Parent() != nil {
+				continue
+			}
+			for _, an := range host.AnonFuncs {
+				lits = append(lits, hosted{an, host})
+			}
+		}
+		for _, h := range lits {
+			an := h.an
 			if !isPredSig(an.Signature) {
 				continue
 			}
 			var site ssa.Instruction
 			typ := "?"
-			for _, b := range onResp.Blocks {
+			for _, b := range h.host.Blocks {
 				for _, ins := range b.Instrs {
 					mc, isMC := ins.(*ssa.MakeClosure)
 					uses := isMC && mc.Fn == ssa.Value(an)
